@@ -102,8 +102,6 @@ def correspondence(run, EoN, results, tier):
             same = False; detail = 'impl returns, model fails with %s' % m[1]
         else:
             iv = impl_row0(res)
-            if case['entry'] == 'SIS_heterogeneous_pairwise_from_graph' and case['full'] and len(iv) == len(m[1]) + 1:
-                iv = iv[:-1]        # the IkIl slot (kcount = 1) is not a time series, see Model/Wrappers.v SIS_heterogeneous_pairwise
             same = len(iv) == len(m[1]) and all(near(a, b[1]) for a, b in zip(iv, m[1]))
             detail = 'row 0: impl %s model %s' % ([short(x) for x in iv], [(nm, short(v)) for nm, v in m[1]])
             if same: n_ok += 1
